@@ -17,8 +17,8 @@ Fails closed: an anchor that is not recognised is emitted as a value that falsif
 """
 import ast
 
-from ._symsrc import (SRCOPS_FILE, Out, Sym, affine, affine1, as_int, cmp_parts, exc_name, find, find_def, match,
-                      read_tree, safe, text)
+from ._symsrc import (SRCOPS_FILE, Out, Sym, affine, affine1, as_int, cmp_parts, exc_name, find, find_def, func_shape,
+                      match, read_tree, safe, text)
 
 
 def _open_slicer(o, tree):
@@ -139,13 +139,63 @@ def _open_slicer(o, tree):
     o.str("appendSrc", safe(lambda: text(m_run["_POST"], abbr).replace(hp[0] + "(", "CROSSING(")),
           "the row(s) put after the run")
 
+    # the same two blocks, structured:  (KEEP if ON_PLANE else CROSSING(x, y)) if GUARD else <no rows>
+    def block(node, which):
+        m = match("(_KEEP if _Z else _CROSS) if _G else _EMPTY", node)
+        g = cmp_parts(m["_G"])
+        mk = match("_COMPS[_CI][_ROW]", m["_KEEP"])
+        if text(mk["_COMPS"]) != text(comps):
+            return None
+        ci = affine1(mk["_CI"])
+        z = cmp_parts(m["_Z"])
+        mz = match("_CS[_SI]", z[1])
+        si = affine1(mz["_SI"])
+        if text(mz["_CS"]) != text(csigns) or text(ci[1]) != text(c) or text(si[1]) != text(c):
+            return None
+        order, run_idx = [], None
+        for a in m["_CROSS"].args:
+            if text(a) == text(m["_KEEP"]):
+                order.append("neighbour")
+            else:
+                mr = match("_F[_I]", a)
+                if mr is None or text(mr["_F"]) != text(front):
+                    return None
+                order.append("run")
+                run_idx = as_int(mr["_I"])
+        me = match("np.zeros((_N, 3))", m["_EMPTY"])
+        d = dict(comp_off=ci[2] if ci[0] == 1 else None, row=as_int(mk["_ROW"]), z_cmp=z[0], z_rhs=as_int(z[2]),
+                 sign_off=si[2] if si[0] == 1 else None, order=order, run_idx=run_idx, empty=as_int(me["_N"]))
+        if which == "pre":       # GUARD = `C op n`
+            d.update(g_cmp=g[0] if text(g[1]) == text(c) else None, g_rhs=as_int(g[2]), g_off=0)
+        else:                    # GUARD = `C + k op len(COMPONENTS)`
+            gl = affine1(g[1])
+            ok = gl[0] == 1 and text(gl[1]) == text(c) and match("len(_X)", g[2]) is not None \
+                and text(match("len(_X)", g[2])["_X"]) == text(comps)
+            d.update(g_cmp=g[0] if ok else None, g_rhs=None, g_off=gl[2])
+        return d
+    for nm, key, which in (("prepend", "_PRE", "pre"), ("append", "_POST", "post")):
+        b = safe(lambda: block(m_run[key], which)) or {}
+        o.cmp(nm + "GuardCmp", b.get("g_cmp"), "`%s`: rows are added when `C + k op %s`" % (nm, "n" if which == "pre" else "len(COMPONENTS)"))
+        o.int(nm + "GuardOffset", b.get("g_off"))
+        if which == "pre":
+            o.int(nm + "GuardRhs", b.get("g_rhs"))
+        o.int(nm + "CompOffset", b.get("comp_off"), "the neighbour is `COMPONENTS[C + k][row]`")
+        o.int(nm + "RowIndex", b.get("row"))
+        o.cmp(nm + "OnPlaneCmp", b.get("z_cmp"), "kept as it is when `CSIGNS[C + k'] op n`")
+        o.int(nm + "SignOffset", b.get("sign_off"))
+        o.int(nm + "OnPlaneRhs", b.get("z_rhs"))
+        o.strs(nm + "CrossOrder", b.get("order") if b.get("order") and len(b.get("order")) == 2 else None,
+               "otherwise CROSSING of (neighbour / `FRONT[i]`) in this order")
+        o.int(nm + "RunIndex", b.get("run_idx"))
+        o.int(nm + "EmptyRows", b.get("empty"), "no rows: `np.zeros((n, 3))`")
+
 def _sliced_by_plane(o, tree):
     fn = find_def(tree, "Polyline.sliced_by_plane")
     rs = safe(lambda: Sym(fn).returns())
     r = rs[0] if rs and len(rs) == 1 else None
-    m = safe(lambda: match("Polyline(v=slice_open_polyline_by_plane(_W, plane), is_closed=False)", r)) or {}
+    m = safe(lambda: match("Polyline(v=slice_open_polyline_by_plane(_W, plane), is_closed=_IC)", r)) or {}
     w = m.get("_W")
-    mw = safe(lambda: match("np.vstack([_R, _R[:1]]) if _G else self.v", w)) or {}
+    mw = safe(lambda: match("np.vstack([_R, _R[:_N]]) if _G else self.v", w)) or {}
     rolled, guard = mw.get("_R"), mw.get("_G")
     mr = safe(lambda: match("np.roll(self.v, _ROLL, axis=0)", rolled)) or {}
     roll = mr.get("_ROLL")
@@ -191,6 +241,24 @@ def _sliced_by_plane(o, tree):
     o.str("closedGuardSrc", safe(lambda: text(guard)), "the closed branch is taken when")
     o.str("resultSrc", safe(lambda: text(r, abbr)), "what is returned")
 
+    def guard_parts():
+        vals = guard.values if isinstance(guard, ast.BoolOp) and isinstance(guard.op, ast.And) else None
+        if vals is None or len(vals) != 2:
+            return None
+        flags = [v for v in vals if text(v) == "self.is_closed"]
+        cmps = [cmp_parts(v) for v in vals if cmp_parts(v)]
+        if len(flags) != 1 or len(cmps) != 1:
+            return None
+        return cmps[0][0], text(cmps[0][1]), as_int(cmps[0][2])
+    gp = safe(guard_parts, (None, None, None))
+    o.cmp("closedGuardCmp", gp[0], "the closed branch is taken when `self.is_closed and <lhs> op n`")
+    o.str("closedGuardLhs", gp[1])
+    o.int("closedGuardRhs", gp[2])
+    o.int("repeatStop", safe(lambda: as_int(mw["_N"])), "WORKING = ROLLED followed by `ROLLED[:n]`")
+    o.int("rollAxis", safe(lambda: as_int([k.value for k in rolled.keywords if k.arg == "axis"][0])), "`np.roll(…, axis=n)`")
+    o.bool("resultIsClosed", safe(lambda: [k.value.value for k in r.keywords if k.arg == "is_closed"][0]),
+           "`is_closed=` of the returned polyline")
+
 
 def _intersect(o, tree):
     fn = find_def(tree, "intersect_segment_with_plane")
@@ -225,4 +293,23 @@ def generate(repo):
             del o.lines[n:]
             o.notes.append("%s: %r" % (part.__name__, e))
         o.blank()
+    def helper_shape():
+        """the local crossing helper of `slice_open_polyline_by_plane` (found by structure, its name is free)"""
+        fn = find_def(t1, "slice_open_polyline_by_plane")
+        locs = [st for st in fn.body if isinstance(st, ast.FunctionDef)]
+        if len(locs) != 1:
+            return None
+        h = locs[0]
+        rb = sum(1 for st in ast.walk(fn) if st is not h and isinstance(st, (ast.Name, ast.FunctionDef))
+                 and ((isinstance(st, ast.Name) and isinstance(st.ctx, ast.Store) and st.id == h.name)
+                      or (isinstance(st, ast.FunctionDef) and st.name == h.name)))
+        return ("slice_open_polyline_by_plane.<local helper>", [ast.unparse(d) for d in h.decorator_list],
+                "%d positional" % len(h.args.args) if ast.unparse(h.args) == ", ".join(a.arg for a in h.args.args) else ast.unparse(h.args),
+                Sym(h).skipped, rb)
+    o.shapes("functionShapes",
+             [func_shape(t1, "slice_open_polyline_by_plane"),
+              safe(helper_shape, ("slice_open_polyline_by_plane.<local helper>", ["<anchor not found>"], "<anchor not found>", [], 424242)),
+              func_shape(t2, "Polyline.sliced_by_plane"), func_shape(t3, "intersect_segment_with_plane")],
+             "for every function read above: (name, decorators, parameters with defaults, statements the symbolic reader "
+             "does not interpret, other bindings of the name in its scope)")
     return [SRCOPS_FILE, o.result()]
